@@ -1124,7 +1124,8 @@ func isGrpcSource(p *Prog, fi *FuncInfo, c *ast.CallExpr) bool {
 			return true
 		}
 	}
-	return false
+	// a narrower interface of the package that the generated client satisfies (txRPC)
+	return p.isStoreClientIface(sig.Recv().Type())
 }
 
 func c11ClientFlows(p *Prog, r *Report) {
